@@ -565,3 +565,10 @@ Lemma C05_hex_round_trip_lemma :
   forall (k : nat) (up : list bool) (n : N),
     py_int_hex (hex_spell k up n) = Some (Z.of_N n) /\ hex_val (hex_spell k up n) = Some n.
 Proof. intros; split; [apply py_int_hex_spell | apply hex_val_spell]. Qed.
+
+(* ---- the _body glue: a chunked transfer coding overrides any Content-Length ---- *)
+Lemma C05_chunked_overrides_cl_lemma :
+  forall (s : stream) (buf : nat) (maxb : option nat) (cl : Z) (te : list N),
+    te_chunked te = true ->
+    body_read_env s buf maxb cl te = body_read_chunked s buf maxb.
+Proof. intros s buf maxb cl te H. unfold body_read_env. now rewrite H. Qed.
